@@ -170,6 +170,7 @@ theorem stepS_res (r : Res) (s : SState) (c : Call) (s' : SState) (r' : Res) (h 
     have : s' = (setAlpha r s α stroke fill).1 := by rw [h]
     subst this; exact setAlpha_res r s α stroke fill
   | setState d => simp only [stepS, setState] at h; simp at h; obtain ⟨rfl, rfl⟩ := h; rfl
+  | softMaskState => simp only [stepS, softMaskState, setState] at h; simp at h; obtain ⟨rfl, rfl⟩ := h; rfl
   | setBlendMode mode => simp only [stepS, setState] at h; simp at h; obtain ⟨rfl, rfl⟩ := h; rfl
   | beginMarked et mcid tag =>
     simp only [stepS] at h; simp at h; obtain ⟨rfl, rfl⟩ := h
